@@ -17,7 +17,7 @@ Inductive ivkind :=
   | IVSlice (x : nat)             (* Slice x *)
   | IVS2AP (x : nat) (lenpos : bool)   (* SliceToArrayPointer x, array length > 0 *)
   | IVAppend1 (x : nat)           (* append(x) *)
-  | IVAppendN                     (* append(x, ...) *)
+  | IVAppendN (x : nat) (lit : bool)   (* append(x, ...): lit = the further arguments are the builder's varargs slice *)
   | IVPhi (edges : list nat)
   | IVOther.
 
@@ -79,7 +79,7 @@ Section Fn.
           if lenpos then (match u with NNil => NUnk | _ => NNon end)
           else (match u with NUnk => lookup | _ => u end)
       | IVAppend1 x => nilness_of f t x
-      | IVAppendN => NNon
+      | IVAppendN x lit => if lit then NNon else (match nilness_of f t x with NNon => NNon | _ => lookup end)
       | IVNonNil => NNon
       | IVNil => NNil
       | IVConstUnk => NUnk
@@ -128,8 +128,9 @@ Section Fn.
       match xn, yn with
       | NUnk, _ | _, NUnk =>
         match yn with
-        | NUnk => Some (if Nat.eqb succ eqS then exp [] y xn else exp [] y (negate xn))
-        | _ => Some (if Nat.eqb succ eqS then exp [] x yn else exp [] x (negate yn))
+        (* on the not-equal edge only a nil operand teaches something (repair of finding F42) *)
+        | NUnk => Some (if Nat.eqb succ eqS then exp [] y xn else match xn with NNon => [] | _ => exp [] y (negate xn) end)
+        | _ => Some (if Nat.eqb succ eqS then exp [] x yn else match yn with NNon => [] | _ => exp [] x (negate yn) end)
         end
       | _, _ =>
         if (nn_eqb xn yn && Nat.eqb succ eqS) || (negb (nn_eqb xn yn) && Nat.eqb succ neS) then Some [] else None
